@@ -356,6 +356,9 @@ func c15RunCase(f []string) string {
 	if f[0] == "api" {
 		return c15Api(f)
 	}
+	if f[0] == "prologue" {
+		return c15Prologue(f)
+	}
 	if (f[0] != "follow" && f[0] != "followspec") || len(f) < 5 {
 		return "bad-op"
 	}
@@ -858,6 +861,8 @@ func c15GenAll(r *Rand, tier string) []string {
 	}
 	// the wiring: followreader.New and the command line (c15wire.go)
 	out = append(out, c15WireGenAll(r, tier)...)
+	// the prologue of the per-file goroutine of TailFilesToChan on regular files, pipes, missing files / directories (c15open.go)
+	out = append(out, c15PrologueGenAll(r, tier)...)
 	// observation point (b): the real code runs HERE, the observed batch lengths become part of the case
 	out = append(out, c15TailGenAll(r, tier)...)
 	// trace inclusion: event logs of real TailFilesToChan / VerifOpenReaderToChan runs (c15trace.go)
@@ -880,7 +885,7 @@ func c15Stats(cases []string) map[string]int {
 			c15TraceStats(st, c)
 			continue
 		}
-		if len(f) >= 2 && (f[0] == "new" || f[0] == "cli" || f[0] == "api") {
+		if len(f) >= 2 && (f[0] == "new" || f[0] == "cli" || f[0] == "api" || f[0] == "prologue") {
 			st["wiring."+f[0]]++
 			continue
 		}
